@@ -28,6 +28,16 @@ application so far, bytes the peer sent on the readable streams) + bytes of disc
 bytes the peer never sent on a readable stream is not consumption of window). Client role also: the CHANNEL_OPEN advertises exactly the clamped request
 (window into [32768, 2^32-1], packet into [4096, 2^32-1]).
 
+Channel numbering (round 3): the two ends of a channel number it independently (RFC 4254 "sender channel" / "recipient
+channel").  snd: the puppet's own number for the channel is drawn from {77, 0, 1, 2, 2^32-1} (equal to / different from the tested
+side's number 0); a data message naming any other number than the puppet's is data for which no window was ever granted.  rcv: one
+session carries 1-3 channels open at the same time; the puppet's numbers for them are equal to the tested side's (0, 1, 2), a
+permutation of them (the puppet's number of one channel is the tested side's own number of ANOTHER open channel), overlapping or
+disjoint; every step acts on one of the channels.  Grants are booked to the channel number the WINDOW_ADJUST names - that is all a
+peer can go by: per puppet channel number, sum(adjusts naming it) <= bytes consumed on that channel; an adjust naming a number under
+which the puppet has no channel is a grant for a channel on which nothing was consumed.  E4: the bench channel is 1 here / 7 at the
+peer; the same two clauses on the fake wire.
+
 Engine E4 (vlib.sched + vlib.chanbench: the real Channel on a fake transport, every lock operation, the
 transport's send point and optionally every source line of the send / receive paths of channel.py is
 a switch point; the interleaving is a generated preemption list, fully deterministic):
@@ -61,13 +71,18 @@ RULE = (
     "transport task delivering 0-4 adjusts; e4rcv = window {32768,32769,40000} x transport task feeding <= 8 messages (data / ext type 1 / ext types 0,2,5) within the window || 1-2 "
     "reader tasks (recv / recv_stderr / set_combine_stderr); non-trivial as above. e4snd 'tight' sub-family: 2-3 tasks with one blocking call each (sizes at/above a window from "
     "{1,100,4095,4096,4097}), no adjust before the final grant, preemptions directed at the switch points of _send between leaving the channel "
-    "lock and the transmit (two senders allotted the same window bytes)"
+    "lock and the transmit (two senders allotted the same window bytes). Channel numbering: snd: puppet's number for the channel from "
+    "{77,0,1,2,2^32-1} (data naming another number = data without window); rcv: 1-3 channels open at once, puppet numbers equal / permuted / "
+    "overlapping / disjoint w.r.t. the tested side's own 0,1,2, every step on one of the channels, grants booked per channel number named by the "
+    "WINDOW_ADJUST (a number the puppet has no channel under = nothing consumed there); E4: own number 1, peer's 7, same clauses"
 )
 
 TO = 20.0
 SENTINEL_TYPE = 193
 SIZES = [0, 1, 4095, 4096, 4097, 32768, 1 << 20, 0xFFFFFFFF]
 MIN_W, MAX_W, MIN_P = 32768, 0xFFFFFFFF, 4096
+# channel numbers the puppet uses for ITS end of a channel (each side of an SSH channel numbers it independently)
+PEER_NUMBERS = [77, 77, 0, 1, 2, 0xFFFFFFFF]
 
 
 def clamp(lo, v, hi):
@@ -110,8 +125,12 @@ class Env:
             raise peers.core.HarnessError("C19 harness: tested side never sent %s" % what)
         return self.puppet.log[r - 1]
 
-    def open(self, window, maxpkt, req_window=None, req_maxpkt=None):
-        """window/maxpkt: what the puppet grants. req_*: what the tested client asks for itself."""
+    def open(self, window, maxpkt, req_window=None, req_maxpkt=None, pid=None):
+        """window/maxpkt: what the puppet grants. req_*: what the tested client asks for itself. pid: the puppet's own number
+        for the channel (RFC 4254: each side numbers a channel independently).  May be called several times (several channels
+        in one session); returns {"chan", "tid", "pid", "adv"} and keeps the latest channel in self.chan/tid/pid/adv."""
+        if pid is not None:
+            self.pid = pid
         if self.role == "client":
             res = {}
 
@@ -146,6 +165,7 @@ class Env:
             if self.chan is None:
                 raise peers.core.HarnessError("C19 harness: accept() returned nothing")
         self.sync()
+        return {"chan": self.chan, "tid": self.tid, "pid": self.pid, "adv": self.adv}
 
     def sync(self):
         """Sentinel round trip; returns log entries since the previous sync."""
@@ -178,8 +198,9 @@ def run_snd(ctx, case):
     classes = ["snd:" + role, "snd:threads=%d" % len(threads_ops), "snd:window=%d" % W, "snd:maxpkt=%d" % P]
     env = Env(role)
     try:
-        env.open(W, P)
+        env.open(W, P, pid=case.get("pid"))
         chan = env.chan
+        classes.append("snd:peer-channel-number-%s" % ("equals-own" if env.pid == env.tid else "differs-from-own"))
         errors = []
         payload = bytes(range(256)) * 801  # > 200 KiB
 
@@ -232,8 +253,19 @@ def run_snd(ctx, case):
             while mi < len(marks) and marks[mi][0] <= i:
                 allowed += marks[mi][1]
                 mi += 1
-            if ptype not in (94, 95) or body[:4] != R.u32(env.pid):
+            if ptype not in (94, 95):
                 continue
+            if body[:4] != R.u32(env.pid):
+                # the only channel of the session is the one the puppet numbered env.pid: the window it granted belongs to that
+                # number; a data message naming any other number is data on a channel for which no window was ever granted
+                ctx.violation(
+                    "window-respected",
+                    "%s:data-addressed-to-a-channel-number-without-window" % role,
+                    case,
+                    "log index %d: %s addressed to channel %d; the peer's number for the channel is %d (own number %d): no window was granted for that number"
+                    % (i, "CHANNEL_DATA" if ptype == 94 else "CHANNEL_EXTENDED_DATA", R.Reader(body).u32(), env.pid, env.tid),
+                )
+                return
             rd = R.Reader(body)
             rd.u32()
             if ptype == 95:
@@ -262,6 +294,16 @@ def run_snd(ctx, case):
 # ----------------------------------------------------------------------------- rcv family
 
 
+def _numbering_class(chans):
+    own = [c["tid"] for c in chans]
+    peer = [c["pid"] for c in chans]
+    if own == peer:
+        return "equal"
+    if set(own) == set(peer):
+        return "permuted"  # every peer number is the tested side's own number of ANOTHER open channel
+    return "overlapping" if set(own) & set(peer) else "disjoint"
+
+
 def run_rcv(ctx, case):
     role = case["role"]
     kw = {}
@@ -271,48 +313,57 @@ def run_rcv(ctx, case):
         kw["default_max_packet_size"] = case["dmp"]
     env = Env(role, kw or None)
     classes = ["rcv:" + role]
+    pids = list(case.get("pids") or [77])
     try:
-        env.open(1 << 20, 32768, case.get("req_w"), case.get("req_p"))
-        chan = env.chan
-        adv_w, adv_p = env.adv
-        if role == "client":
-            want_w = clamp(MIN_W, case["req_w"] if case.get("req_w") is not None else case.get("dws", 2097152) or 2097152, MAX_W)
-            want_p = clamp(MIN_P, case["req_p"] if case.get("req_p") is not None else case.get("dmp", 32768) or 32768, MAX_W)
-            if (adv_w, adv_p) != (want_w, want_p):
-                ctx.case(case, False, classes)
-                ctx.violation("advertised-equals-clamped-request", "client", case, "advertised window/packet %r, clamped request %r" % ((adv_w, adv_p), (want_w, want_p)))
-                return
-        chan.settimeout(0.0)
-        credit = adv_w
-        sent = 0
-        consumed = 0  # bound on what may have been granted: see below
-        read = 0  # bytes the application's recv/recv_stderr calls returned
-        legit = 0  # bytes the peer sent that an application CAN read (DATA, EXTENDED_DATA type 1)
-        discarded = 0  # bytes of extended-data types the tested side does not deliver: consumed once, on arrival
-        granted = 0
+        # one session, len(pids) channels open at the same time; the puppet numbers its end of channel i pids[i], the tested
+        # side numbers its own end itself (0, 1, 2 in opening order)
+        chans = []
+        for pid in pids:
+            c = env.open(1 << 20, 32768, case.get("req_w"), case.get("req_p"), pid=pid)
+            adv_w, adv_p = c["adv"]
+            if role == "client":
+                want_w = clamp(MIN_W, case["req_w"] if case.get("req_w") is not None else case.get("dws", 2097152) or 2097152, MAX_W)
+                want_p = clamp(MIN_P, case["req_p"] if case.get("req_p") is not None else case.get("dmp", 32768) or 32768, MAX_W)
+                if (adv_w, adv_p) != (want_w, want_p):
+                    ctx.case(case, False, classes)
+                    ctx.violation("advertised-equals-clamped-request", "client", case, "advertised window/packet %r, clamped request %r" % ((adv_w, adv_p), (want_w, want_p)))
+                    return
+            c["chan"].settimeout(0.0)
+            # credit: what the puppet may still send; read: bytes the application's recv/recv_stderr calls returned; legit: bytes
+            # the peer sent that an application CAN read (DATA, EXTENDED_DATA type 1); discarded: bytes of extended-data types
+            # the tested side does not deliver (consumed once, on arrival); granted: sum of the WINDOW_ADJUSTs naming this channel
+            c.update(credit=adv_w, sent=0, read=0, legit=0, discarded=0, granted=0, consumed=0)
+            chans.append(c)
+        bypid = dict((c["pid"], c) for c in chans)
+        classes.append("rcv:chans=%d" % len(chans))
+        classes.append("rcv:channel-numbering=" + _numbering_class(chans))
         n_adjust = 0
         payload = bytes(range(256)) * 200
         steps = []
         for op in case["ops"]:
-            kind, n = op
+            kind, n = op[0], op[1]
+            ci = (op[2] if len(op) > 2 else 0) % len(chans)
+            c = chans[ci]
+            chan = c["chan"]
+            adv_w, adv_p = c["adv"]
             if kind in ("data", "ext") or kind.startswith("ext:"):
                 code = 1 if kind == "ext" else (int(kind[4:]) if kind != "data" else None)
                 if code is not None and code != 1:
                     classes.append("rcv:ext-type-%s" % ("0" if code == 0 else ("2..5" if code <= 5 else ">5")))
-                n = min(n, credit)
+                n = min(n, c["credit"])
                 while n > 0:
                     k = min(n, adv_p, len(payload))
                     if kind == "data":
-                        env.puppet.send_raw_seq(peers.m_channel_data(env.tid, payload[:k]))
+                        env.puppet.send_raw_seq(peers.m_channel_data(c["tid"], payload[:k]))
                     else:
-                        env.puppet.send_raw_seq(peers.m_channel_ext_data(env.tid, code, payload[:k]))
+                        env.puppet.send_raw_seq(peers.m_channel_ext_data(c["tid"], code, payload[:k]))
                     n -= k
-                    credit -= k
-                    sent += k
+                    c["credit"] -= k
+                    c["sent"] += k
                     if code is None or code == 1:
-                        legit += k
+                        c["legit"] += k
                     else:
-                        discarded += k
+                        c["discarded"] += k
             elif kind == "combine":
                 # every earlier message has been processed (sentinel round trip of the previous step), so this is what
                 # the application left unread on the stderr stream at the moment it flips combining
@@ -326,32 +377,51 @@ def run_rcv(ctx, case):
                 f = chan.recv if kind == "recv" else chan.recv_stderr
                 ready = chan.recv_ready() if kind == "recv" else chan.recv_stderr_ready()
                 if ready:
-                    read += len(f(n))
-                    if kind == "recv_stderr" and discarded:
+                    c["read"] += len(f(n))
+                    if kind == "recv_stderr" and c["discarded"]:
                         classes.append("rcv:stderr-read-after-discarded-ext-type")
             # what the application has consumed: the bytes its reads returned, but never more than the peer sent on the streams
             # an application can read; plus, once, the bytes of types that are discarded on arrival
-            consumed = min(read, legit) + discarded
+            c["consumed"] = min(c["read"], c["legit"]) + c["discarded"]
             new = env.sync()
+            after = "arrival" if (kind in ("data", "ext") or kind.startswith("ext:")) else ("set_combine_stderr" if kind == "combine" else "read")
             for seq, ptype, body in new:
-                if ptype == 93 and body[:4] == R.u32(env.pid):
-                    a = R.Reader(body[4:]).u32()
-                    granted += a
-                    credit += a
-                    n_adjust += 1
-            steps.append((kind, n, sent, consumed, granted))
-            if granted > consumed:
-                ctx.case(case, True, sorted(set(classes)))
-                ctx.violation(
-                    "grant-at-most-consumed",
-                    "%s:after-%s" % (role, "arrival" if (kind in ("data", "ext") or kind.startswith("ext:")) else ("set_combine_stderr" if kind == "combine" else "read")),
-                    case,
-                    "window granted %d > consumed %d (peer sent %d = %d readable + %d of discarded types; reads returned %d); last steps (op, n, sent, consumed, granted): %r"
-                    % (granted, consumed, sent, legit, discarded, read, steps[-4:]),
-                )
-                return
-        ctx.case(case, n_adjust >= 1, sorted(set(classes)) + (["rcv:adjust-observed"] if n_adjust else []) + ["rcv:adv-window=%d" % adv_w])
+                if ptype != 93:
+                    continue
+                rd = R.Reader(body)
+                rcpt, a = rd.u32(), rd.u32()
+                n_adjust += 1
+                g = bypid.get(rcpt)
+                if g is None:
+                    # a grant is a grant for the channel it names (that is all the peer can go by): here a number under which the
+                    # peer has no channel at all, i.e. no application consumed anything there
+                    ctx.case(case, True, sorted(set(classes)))
+                    ctx.violation(
+                        "grant-at-most-consumed",
+                        "%s:grant-names-a-number-the-peer-has-no-channel-under" % role,
+                        case,
+                        "after %s on channel %d (own number %d, peer's number %d): WINDOW_ADJUST of %d bytes addressed to channel number %d; the peer's channel numbers are %r - "
+                        "nothing was consumed on a channel of that number" % (after, ci, c["tid"], c["pid"], a, rcpt, [x["pid"] for x in chans]),
+                    )
+                    return
+                g["granted"] += a
+                g["credit"] += a
+            steps.append((kind, n, ci, c["sent"], c["consumed"], c["granted"]))
+            for gi, g in enumerate(chans):
+                if g["granted"] > g["consumed"]:
+                    ctx.case(case, True, sorted(set(classes)))
+                    ctx.violation(
+                        "grant-at-most-consumed",
+                        ("%s:after-%s" % (role, after)) if gi == ci else ("%s:granted-on-a-channel-other-than-the-consuming-one" % role),
+                        case,
+                        "channel %d (own number %d, peer's number %d): window granted %d > consumed %d (peer sent %d = %d readable + %d of discarded types; reads returned %d); the step acted on "
+                        "channel %d; last steps (op, n, channel, sent, consumed, granted): %r"
+                        % (gi, g["tid"], g["pid"], g["granted"], g["consumed"], g["sent"], g["legit"], g["discarded"], g["read"], ci, steps[-4:]),
+                    )
+                    return
+        ctx.case(case, n_adjust >= 1, sorted(set(classes)) + (["rcv:adjust-observed"] if n_adjust else []) + sorted(set("rcv:adv-window=%d" % c["adv"][0] for c in chans)))
     finally:
+        chans = None
         env.close()
 
 
@@ -371,6 +441,8 @@ snd_case = st.fixed_dictionaries(
         "maxpkt": st.sampled_from(SIZES),
         "threads": st.lists(st.lists(send_op, min_size=1, max_size=5), min_size=1, max_size=4),
         "adjusts": st.lists(adjust, max_size=8),
+        # the puppet's own number for the channel (the tested side's is 0: first channel of the session)
+        "pid": st.sampled_from(PEER_NUMBERS),
     }
 )
 
@@ -382,7 +454,12 @@ rcv_read_op = st.tuples(st.sampled_from(["recv", "recv", "recv_stderr"]), st.sam
 # EXTENDED_DATA with a type code other than 1 ("ext:<code>"): RFC 4254 allows any code; the tested side does not deliver them
 RCV_EXT_CODES = ["ext:0", "ext:2", "ext:2", "ext:3", "ext:5", "ext:6", "ext:4294967295"]
 rcv_feedx_op = st.tuples(st.sampled_from(RCV_EXT_CODES), st.one_of(st.sampled_from([1, 3276, 3277, 4096, 32768]), st.integers(1, 40000)))
-rcv_op = st.one_of(rcv_feed_op, rcv_feed_op.map(lambda v: v), rcv_feedx_op, rcv_read_op, rcv_read_op.map(lambda v: v), st.tuples(st.just("combine"), st.sampled_from([1, 1, 0])))
+rcv_op1 = st.one_of(rcv_feed_op, rcv_feed_op.map(lambda v: v), rcv_feedx_op, rcv_read_op, rcv_read_op.map(lambda v: v), st.tuples(st.just("combine"), st.sampled_from([1, 1, 0])))
+# third element: which of the open channels the step acts on (index modulo the number of channels)
+rcv_op = st.tuples(rcv_op1, st.integers(0, 2)).map(lambda t: t[0] + (t[1],))
+# the puppet's numbers for its ends of the 1-3 channels (the tested side numbers its own ends 0, 1, 2): equal, permuted (a number
+# is the tested side's own number of ANOTHER open channel), overlapping, disjoint
+RCV_PIDS = [[77], [0], [1], [4294967295], [0, 1], [1, 0], [1, 0], [1, 2], [5, 0], [77, 78], [0, 1, 2], [1, 2, 0], [2, 0, 1], [0, 2, 1], [7, 1, 0]]
 rcv_case = st.one_of(
     st.fixed_dictionaries(
         {
@@ -393,6 +470,7 @@ rcv_case = st.one_of(
             "dws": st.sampled_from([None, 32768, 32768, 65537, 2097152]),
             "dmp": st.sampled_from([None, None, 4096, 32768]),
             "ops": st.lists(rcv_op, min_size=6, max_size=60),
+            "pids": st.sampled_from(RCV_PIDS),
         }
     ),
     st.fixed_dictionaries(
@@ -402,6 +480,7 @@ rcv_case = st.one_of(
             "dws": st.sampled_from([32768, 32768, 32769, 65536, 65536, 100000, 2097152, 0xFFFFFFFF]),
             "dmp": st.sampled_from([4096, 4097, 32768, 65536, 0xFFFFFFFF]),
             "ops": st.lists(rcv_op, min_size=6, max_size=60),
+            "pids": st.sampled_from(RCV_PIDS),
         }
     ),
 )
@@ -411,6 +490,9 @@ rcv_case = st.one_of(
 # ----------------------------------------------------------------------------- E4 families
 
 E4_TRACED = {"send", "send_stderr", "sendall", "sendall_stderr", "_send", "_wait_for_send_window", "_window_adjust", "recv", "recv_stderr", "_check_add_window", "_feed", "_feed_extended", "set_combine_stderr"}
+
+
+E4_OWN_NUMBER, E4_PEER_NUMBER = 1, 7  # the two ends of the bench channel are numbered differently
 
 
 def _after_reservation(tag):
@@ -429,7 +511,7 @@ def _bench(case, **chan_kw):
     # the directed ("hot") part of a schedule exists only in the tight e4snd cases
     sch = S.Scheduler(S.strategy_from_case(case["sched"], _after_reservation), trace_files=tf, max_steps=60000)
     ft = CB.FakeTransport(sch)
-    chan = CB.make_channel(sch, ft, chanid=1, remote_chanid=7, **chan_kw)
+    chan = CB.make_channel(sch, ft, chanid=E4_OWN_NUMBER, remote_chanid=E4_PEER_NUMBER, **chan_kw)
     return sch, ft, chan
 
 
@@ -474,6 +556,8 @@ def run_e4snd(ctx, case):
             allowed += ev[1]
         elif ev[0] == "wire" and ev[1]["type"] in ("DATA", "EXTENDED_DATA"):
             n = len(ev[1]["data"])
+            if bad is None and ev[1]["chan"] != E4_PEER_NUMBER:
+                bad = ("window-respected", "e4:data-addressed-to-a-channel-number-without-window", "%s by %s addressed to channel %d; the peer's number for the channel is %d (own number %d)" % (ev[1]["type"], ev[1]["task"], ev[1]["chan"], E4_PEER_NUMBER, E4_OWN_NUMBER))
             cum += n
             if cum > W:
                 waited = True
@@ -506,11 +590,14 @@ def run_e4rcv(ctx, case):
         raw = m.asbytes()
         if raw[0] == CB.MSG_CHANNEL_WINDOW_ADJUST and st_["bad"] is None:
             n = int.from_bytes(raw[5:9], "big")
+            rcpt = int.from_bytes(raw[1:5], "big")
             st_["granted"] += n
             st_["adjusts"] += 1
             taken = st_["fed"] - _buffered(chan)
-            if st_["granted"] > taken:
-                st_["bad"] = "WINDOW_ADJUST(%d) by %s brings the granted total to %d; applications have taken %d bytes out of the pipes (fed %d)" % (n, sch.current_name(), st_["granted"], taken, st_["fed"])
+            if rcpt != E4_PEER_NUMBER:
+                st_["bad"] = ("e4:grant-names-a-number-the-peer-has-no-channel-under", "WINDOW_ADJUST(%d) by %s addressed to channel number %d; the peer's number for the channel is %d (own number %d)" % (n, sch.current_name(), rcpt, E4_PEER_NUMBER, E4_OWN_NUMBER))
+            elif st_["granted"] > taken:
+                st_["bad"] = ("e4:apps=%d" % len(case["apps"]), "WINDOW_ADJUST(%d) by %s brings the granted total to %d; applications have taken %d bytes out of the pipes (fed %d)" % (n, sch.current_name(), st_["granted"], taken, st_["fed"]))
         orig(m)
 
     ft._send_user_message = send_user_message
@@ -562,7 +649,7 @@ def run_e4rcv(ctx, case):
     classes = ["e4rcv", "e4rcv:apps=%d" % len(case["apps"]), "e4rcv:outcome=" + str(res.outcome)] + (["e4rcv:adjust-observed"] if st_["adjusts"] else []) + sorted(st_["combine"])
     ctx.case(case, st_["adjusts"] >= 1, classes)
     if st_["bad"]:
-        ctx.violation("grant-at-most-consumed", "e4:apps=%d" % len(case["apps"]), case, st_["bad"])
+        ctx.violation("grant-at-most-consumed", st_["bad"][0], case, st_["bad"][1])
 
 
 e4_send_op = st.tuples(st.sampled_from(["send", "send_stderr", "sendall", "sendall_stderr"]), st.one_of(st.sampled_from([0, 1, 50, 100, 4032, 4033, 5000]), st.integers(0, 9000)), st.sampled_from(["block", "block", "timeout", "nonblock"]))
